@@ -48,6 +48,16 @@ impl<'a, P: Pe<'a>> Headers<P> {
 				check_sum = (check_sum & 0xffffffff) + (check_sum >> 32);
 			}
 		}
+		// The remaining bytes of an image whose length is not a multiple of four, zero extended
+		let tail = &image[dwords.len() * 4..];
+		if !tail.is_empty() {
+			let mut last = [0u8; 4];
+			last[..tail.len()].copy_from_slice(tail);
+			check_sum = (check_sum & 0xffffffff) + u32::from_le_bytes(last) as u64 + (check_sum >> 32);
+			if check_sum > 0xffffffff {
+				check_sum = (check_sum & 0xffffffff) + (check_sum >> 32);
+			}
+		}
 		check_sum = (check_sum & 0xffff) + (check_sum >> 16);
 		check_sum = check_sum + (check_sum >> 16);
 		check_sum = check_sum & 0xffff;
